@@ -217,7 +217,7 @@ def rule_target(ctx: Ctx, rule: str = "C11.target"):
             v = xshow(p.value, evs)
             rep.check(v.startswith("InvalidStateValue("), rule, fn.loc(), "an unmapped start value raises InvalidStateValue", fn.key, f"raise {v}")
     rep.floor(rule, "returning paths of _get_initial_state", n, 2)
-    it = ctx.fn("BaseEngine._initial_transition")
+    it = ctx.fn(f"BaseEngine.{ctx.k.initial_transition_name}")
     for p in ctx.paths(it, inline=None, exc_edges="none"):
         v = xshow(p.value, p.events) if p.kind == "return" else ""
         rep.check("self.sm._get_initial_state()" in v, rule, it.loc(), "initial activation enters the state chosen by _get_initial_state", it.key, f"return {v}")
